@@ -279,26 +279,29 @@ end CbiVerif.C17
 
 /-! Non-vacuity of `conditionals_as_C`: its hypotheses hold on a concrete Fortran text with nested
 `#ifdef/#else/#endif`, `#elif`, `#define` on one path, a continued statement with an interleaved
-comment, a character literal holding `!`, a sentinel and an ordinary comment.  The expression
-evaluator / macro expander are `partial` (opaque to the kernel), so this is checked by evaluation
-(`#guard`), as for `C01.analyse_eq_reference`; the harness observes the same on every generated program. -/
+comment, a character literal holding `!`, a sentinel and an ordinary comment.  The macro expander and the
+expression evaluator of the executed model are the total definitions `MX.cbiExpand` / `Eval.cbiEval`
+(`PP.condValue`), so this is a kernel-checked statement (it was a `#guard` while `runExpand` was a
+`partial def`); the harness observes the same on every generated program. -/
 namespace CbiVerif.C17
 open CbiVerif.Fortran CbiVerif.PP in
-#guard
-  let text := "m1 = 1\n#ifdef A\nm2 = 'a!b' &\n  ! c\n  & // 'c'\n#ifdef B\nm3 = 3\n#else\n#define C 1\n!$omp do\nm4 = 4\n#endif\n#elif defined(B)\nm5 = 5\n#else\n! only a comment\nm6 = 6\n#endif\n#if C == 1\nm7 = 7\n#endif\n"
-  match referenceFortran text ["A=1"], analyseFortran text ["A=1"], referenceFortran text ["B"] with
-  | .ok r, .ok rows, .ok r2 =>
-    !r.bad && !r.unterminated && !r.diag && r.err.isNone && rows == r.rows &&
-    (rows.filter (fun x => x.1 == .code)).map (fun x => (x.2.1, x.2.2)) ==
-      [([1], true), ([3, 5], true), ([7], false), ([10, 11], true), ([14], false), ([17], false), ([20], true)] &&
-    attributedLines rows == [1, 2, 3, 5, 6, 8, 9, 10, 11, 12, 13, 15, 18, 19, 20, 21] &&
-    attributedLines r2.rows == [1, 2, 13, 14, 15, 18, 19, 21]
-  | _, _, _ => false
+example :
+    (let text := "m1 = 1\n#ifdef A\nm2 = 'a!b' &\n  ! c\n  & // 'c'\n#ifdef B\nm3 = 3\n#else\n#define C 1\n!$omp do\nm4 = 4\n#endif\n#elif defined(B)\nm5 = 5\n#else\n! only a comment\nm6 = 6\n#endif\n#if C == 1\nm7 = 7\n#endif\n"
+     match referenceFortran text ["A=1"], analyseFortran text ["A=1"], referenceFortran text ["B"] with
+     | .ok r, .ok rows, .ok r2 =>
+       !r.bad && !r.unterminated && !r.diag && r.err.isNone && rows == r.rows &&
+       (rows.filter (fun x => x.1 == .code)).map (fun x => (x.2.1, x.2.2)) ==
+         [([1], true), ([3, 5], true), ([7], false), ([10, 11], true), ([14], false), ([17], false), ([20], true)] &&
+       attributedLines rows == [1, 2, 3, 5, 6, 8, 9, 10, 11, 12, 13, 15, 18, 19, 20, 21] &&
+       attributedLines r2.rows == [1, 2, 13, 14, 15, 18, 19, 21]
+     | _, _, _ => false) = true := by
+  decide +kernel
 
 -- the hypotheses matter: an unterminated `#ifdef` is reported by the reference
 open CbiVerif.Fortran in
-#guard
-  match referenceFortran "#ifdef A\nx = 1\n" [] with
-  | .ok r => r.unterminated && !r.bad
-  | _ => false
+example :
+    (match referenceFortran "#ifdef A\nx = 1\n" [] with
+     | .ok r => r.unterminated && !r.bad
+     | _ => false) = true := by
+  decide +kernel
 end CbiVerif.C17
